@@ -16,6 +16,7 @@ import (
 	"os"
 	"reflect"
 	"runtime/debug"
+	"time"
 )
 
 type Event = map[string]interface{}
@@ -332,6 +333,22 @@ func guard(f func()) (panicked bool, msg string) {
 	}()
 	f()
 	return
+}
+
+// guardT runs f with a deadline; a call that neither returns nor panics in time is a hang.
+// The goroutine is abandoned (the process exits at the end of the run anyway).
+func guardT(d time.Duration, f func()) (panicked bool, msg string, hung bool) {
+	done := make(chan struct{})
+	go func() {
+		defer close(done)
+		panicked, msg = guard(f)
+	}()
+	select {
+	case <-done:
+		return panicked, msg, false
+	case <-time.After(d):
+		return false, "", true
+	}
 }
 
 func randBytes(r *rand.Rand, n int) []byte {
